@@ -5,6 +5,7 @@
 #   3. demo.sh fails (exit 1) on the changed tree, 2 runs   4. demo.sh passes (exit 0) on the unchanged tree
 # On success copies the seed to /verif/seeded/<name>/ with a meta.json skeleton.
 set -u
+unset GOFLAGS GOSUMDB GOTOOLCHAIN GOWORK; export GOPROXY=off
 name=$1; src=/tmp/seedout/$name; prop=${name%%-*}
 wt=$(mktemp -d /tmp/confirm.XXXXXX); rmdir $wt
 git -C /repo worktree add --detach $wt HEAD >/dev/null 2>&1 || { echo "worktree failed"; exit 2; }
